@@ -34,6 +34,11 @@ CHECKS = {
   text="Every URI of the stated segment/separator/leading alphabet (exhaustive up to 4 segments quick, 6 thorough) is looked up on real TemplateLookup objects over a fixture tree with canary files at every place a traversal could land, directly and through include/inherit/namespace/Namespace-API calls from callers at depth 0..3; a sys.addaudithook file-access monitor, the realpath of every returned Template.filename and a canary scan of the output decide containment.",
   note="Trusted: os.path.realpath and the audit hook's coverage of open/mkdir/rename/remove/mkstemp/shutil events; symlinks and spellings outside the alphabet are not explored.",
   technique="audit-hook file-access monitor + containment oracle over exhaustively enumerated URIs"),
+ "C13": dict(
+  category="fault_enumeration", design_ref="DESIGN.md §2 C13",
+  text="Fault enumeration over generated documents (C05 grammar plus filtered blocks, <%text filter>, includes, an inherited base, loops with loop.index, cached defs, a raising filter and a raising decorator): EVERY node position is a raise point, one at a time (as a <% raise %> block, a raising call in an expression, a raising argument expression, inside the filter function, before/after the wrapped call in the decorator, inside a cached def's creation function), x EVERY enclosing handler position (% try around the raise point and around each ancestor in turn, include_error_handler, error_handler returning True, the caller of render_context, none). Oracles: the reference interpreter (abandoned buffers dropped, direct writes kept), the settrace render-state monitor on every template frame, identity (`is`) of the propagating exception object, a marker written through the same Context after a failed render_context plus the depths of its stacks, the format_exceptions page, and a second (disarmed) and third (re-armed) render of the same Template with cache state carried along.",
+  note="Trusted: mk/tdoc.py; raise points are positions between document nodes and inside user-supplied callables, not inside Mako's own runtime functions. Not generated: caller.body() inside an anonymous <%block>, <%block> inside a call body that uses body arguments.",
+  technique="exception injection at every document position x handler position, judged by a reference interpreter and a render-state invariant monitor"),
  "C14": dict(
   category="exploration", design_ref="DESIGN.md §2 C14",
   text="History + executable model: real TemplateLookup objects over real files run operation histories on a virtual clock (codegen time, LRU timer and module mtimes driven by the harness); every template prints uri@dir#version so each get_template result is judged against the model's prediction (same object and zero constructions / new object with the current version / exception class), and after every operation the 1.5n bound and the eviction order are checked against the model's recency list. All histories of length <=4 (quick) / <=5 (thorough) over a 10-operation alphabet are enumerated under 4 configurations; longer ones are random.",
